@@ -30,6 +30,7 @@ type c03cfg struct {
 	n          int
 	k, a, b    int
 	behaviours []string
+	instant    bool // peers answer (or fail) the moment they are asked: several answers are processed in one step
 }
 
 var c03Ops = []string{
@@ -77,6 +78,11 @@ func c03Configs(tier string) []vmc.Cfg {
 						}
 						c := c03cfg{op: op, n: n, k: kb.k, a: kb.a, b: kb.b, behaviours: as, dist: dist}
 						out = append(out, vmc.Cfg{Name: fmt.Sprintf("%s/%s/n%d/k%da%db%d/%s", op, dist, n, kb.k, kb.a, kb.b, strings.Join(as, ",")), Budget: 1, Data: c})
+						if !contains(as, sim.BSilent) {
+							ci := c
+							ci.instant = true
+							out = append(out, vmc.Cfg{Name: fmt.Sprintf("%s/%s/n%d/k%da%db%d/%s/instant", op, dist, n, kb.k, kb.a, kb.b, strings.Join(as, ",")), Budget: 1, Data: ci})
+						}
 					}
 				}
 			}
@@ -127,6 +133,7 @@ func c03Run(x *vmc.X, cfg vmc.Cfg) {
 	}()
 	l.h.SetAddrs([]ma.Multiaddr{ma.StringCast("/ip4/8.8.8.8/tcp/4001")})
 	l.seed(ids)
+	l.net.Instant = c.instant
 	if c.op == "optprovide" {
 		// warm the network-size estimator (in-package seam) with measurements that suggest a *large*
 		// network (tracked peers share 12 bits with their key), so that the optimistic thresholds are
